@@ -11,3 +11,6 @@ import Solvor.Pack.Theorems
 #print axioms Solvor.Pack.knapsack_scaled_optimal
 #print axioms Solvor.Pack.greedy_fallback_valid
 #print axioms Solvor.Pack.pack_excluded
+#print axioms Solvor.Pack.knapsack_mirror_feasible
+#print axioms Solvor.Pack.knapsack_lossless_optimal
+#print axioms Solvor.Pack.minBinsP_le
